@@ -223,7 +223,6 @@ def _run(ctx, base):
             res.seen("cli-options", f"expand={expand}")
             case = {"part": "cli-format", "args": args[3:], "text": text[:3000]}
             res.seen("cases", h("format", text, args[3:]))
-            p = cli(args, wd)
             try:
                 d = mappyfile.open(inp, expand_includes=expand, include_comments=comments, include_position=True)
                 api_out = os.path.join(wd, f"api_out{j}.map")
@@ -231,6 +230,22 @@ def _run(ctx, base):
                 want = open(api_out, "rb").read()
             except Exception as ex:
                 res.count("format_api_failed:" + type(ex).__name__)
+                want = None
+            # the output file may exist already: the same text with the other line ends (an earlier run with another --newlinechar),
+            # the wanted text itself, something else, or the input file itself (formatting in place)
+            pre = r.choice(["absent", "absent", "other-line-ends", "identical", "garbage", "in-place"])
+            if want is not None and pre != "absent":
+                res.count("format_into_existing_output")
+                res.seen("existing-output-kinds", pre)
+                if pre == "in-place":
+                    args[2] = inp
+                else:
+                    other = want.replace(b"\r\n", b"\n") if o["newlinechar"] == "\r\n" else want.replace(b"\n", b"\r\n")
+                    with open(args[2], "wb") as f:
+                        f.write({"other-line-ends": other, "identical": want, "garbage": b"MAP\n  NAME \"old\"\nEND\n"}[pre])
+                case["existing_output"] = pre
+            p = cli(args, wd)
+            if want is None:
                 continue
             if p.returncode != 0:
                 res.violation("cli-format-nonzero-exit", case, {"rc": p.returncode, "stderr": p.stderr[-500:]}, 0)
